@@ -96,6 +96,15 @@ def build_harness(build):
                 raise RuntimeError('fsshim build failed: ' + e[-2000:])
             open(dst + '.key', 'w').write(key)
         out['fsshim'] = dst
+        srcp = os.path.join(ROOT, 'harness', 'thrdrv.cpp')
+        dst = os.path.join(BIN, 'thrdrv')
+        key = file_hash([srcp, os.path.join(REPO, 'src/lib/pkcs11/pkcs11.h')])
+        if not (os.path.exists(dst) and os.path.exists(dst + '.key') and open(dst + '.key').read() == key):
+            rc, o, e = sh(['g++', '-O1', '-std=c++11', '-o', dst, srcp, '-I' + os.path.join(REPO, 'src/lib/pkcs11'), '-ldl', '-lpthread'], timeout=300)
+            if rc != 0:
+                raise RuntimeError('thrdrv build failed: ' + e[-2000:])
+            open(dst + '.key', 'w').write(key)
+        out['thrdrv'] = dst
     return out
 
 
